@@ -60,8 +60,8 @@ var errCancel = errors.New("verif: cancelled at step")
 type errNoReturn struct{ error }
 
 const (
-	returnBound = 10 * time.Second // a pending call must return within this after cancellation
-	gapBound    = 2 * time.Second  // largest admissible gap between two consecutive polls of the context
+	returnBound = 30 * time.Second // a pending call must return within this after cancellation
+	gapBound    = 5 * time.Second  // largest admissible gap between two consecutive polls of the context
 )
 
 // gapCtx wraps StepCtx and records the largest gap between two consecutive polls.
@@ -199,7 +199,7 @@ func check(c Case) error {
 			return fmt.Errorf("the context was not polled for %v during the run", gap)
 		}
 	} else if at := cancelAt.Load(); at != 0 {
-		if d := returned.Sub(time.Unix(0, at)); d > 5*time.Second {
+		if d := returned.Sub(time.Unix(0, at)); d > 15*time.Second {
 			return fmt.Errorf("the call returned %v after the cancellation", d)
 		}
 	}
